@@ -29,7 +29,8 @@ def gen_case(rng, i):
     sm = pg.gen_smoothing(rng, nfft, dts, op=op, nfc=(6 if default_n else None))
     if sm is None:
         return None
-    case = dict(family=fam, smoothing=sm, width=float(rng.choice(pg.WIDTHS)), fft=fft, policy=pg.POLICIES[0], records=recs)
+    policy = pg.POLICIES[int(rng.integers(0, 3))] if (len(set(dts)) > 1 and fam != "diff") else pg.POLICIES[0]
+    case = dict(family=fam, smoothing=sm, width=float(rng.choice(pg.WIDTHS)), fft=fft, policy=policy, records=recs)
     if fam == "trad":
         case["method"] = pg.COMBINE_NAMES[int(rng.integers(0, len(pg.COMBINE_NAMES)))]
     elif fam == "saz":
@@ -124,6 +125,45 @@ def law_probes(ctx, rng):
                               seam="process")
 
 
+def fft_length_stream(ctx, rng):
+    """window lengths around and between powers of two above 2**15: the FFT length written back must be the model's and never shorter
+    than the window (zero padding, never truncation); the curve of a long window must not depend on samples being dropped"""
+    import hvsrpy
+    lengths = [32767, 32768, 32769, 36001, 46340, 46341, 50001, 65535, 65536, 65537, 70001, 92681, 92683]
+    picks = [lengths[int(j)] for j in rng.choice(len(lengths), ctx.budget(4, 13), replace=False)]
+    lines, todo = [], []
+    for L in picks:
+        for fft in (None, dict(n=None), dict(n=int(rng.choice([L - 1, 40000, 65536, 100000])))):
+            rec = dict(dt=0.01, deg=0.0, ns=rng.normal(size=L).tolist(), ew=rng.normal(size=L).tolist(), vt=rng.normal(size=L).tolist())
+            sm = dict(operator="konno_and_ohmachi", bandwidth=40.0, center_frequencies_in_hz=[0.5, 1.0, 3.0, 10.0, 30.0])
+            c = dict(family="trad", method="geometric_mean", smoothing=sm, width=0.1, fft=fft, policy=pg.POLICIES[0], records=[rec])
+            st = pg.make_settings(c)
+            srec = [pg.make_srecord(rec)]
+            r = pg.run_impl(c, srec, st)
+            lines.append(f"prepfft {pg.fft_token(fft)} {L}")
+            todo.append((c, L, pg.fft_token(st.fft_settings), r, srec))
+    outs = run_driver(lines)
+    for (c, L, im, r, srec), o in zip(todo, outs):
+        mo = o.split()[1]
+        ctx.supporting["long_window_fft_cases"] = ctx.supporting.get("long_window_fft_cases", 0) + 1
+        small = dict(c, records=f"one record of {L} samples (seeded noise)")
+        if im.isdigit() and int(im) < L:
+            ctx.violation("zero-padded-never-truncated", dict(case=small, n_samples=L, fft_length=int(im), model_fft_length=mo), seam="prepare_fft_settings")
+        elif im != mo:
+            ctx.violation("fft-length-as-modelled", dict(case=small, n_samples=L, impl=im, model=mo), found_input=False, seam="settings.fft_settings after process")
+        elif not isinstance(r["result"], str) and im.isdigit():
+            # the defined ratio of the full tapered, zero-padded window (independent numpy evaluation with the KO kernel of C02's model is too
+            # slow here; instead: the LAST samples must matter -- zeroing the final 5 % of the window changes the curve)
+            rec2 = dict(c["records"][0])
+            k = int(0.95 * L)
+            for comp in ("ns", "ew", "vt"):
+                rec2[comp] = rec2[comp][:k] + [0.0] * (L - k)
+            r2 = pg.run_impl(dict(c, records=[rec2], fft=dict(n=int(im))))
+            if not isinstance(r2["result"], str) and np.allclose(r2["result"], r["result"], rtol=1e-12, atol=0):
+                ctx.violation("zero-padded-never-truncated", dict(case=small, n_samples=L, fft_length=int(im), note="the last 5 % of the window do not influence the curve"),
+                              seam="process on a long window")
+
+
 def run(ctx):
     ctx.rule = ("cases = (family: 9 frequency-domain combinations incl. aliases / single azimuth / RotDpp / azimuthal / diffuse field) x 7 smoothing operators x "
                 "Tukey widths {0,.05,.1,.5,1} x 1-3 records of 16-200 samples (FFT length = longest record, shorter ones are zero padded) and, every fifth case, the "
@@ -132,6 +172,7 @@ def run(ctx):
     ctx.trusted += ["numpy.fft.rfft is assumed to be the DFT: cross-checked against the model's definitional DFT on every case (all FFT lengths used here)",
                     "np.percentile 'linear' interpolation (mirrored)"]
     rng = np.random.default_rng(ctx.seed)
+    fft_length_stream(ctx, np.random.default_rng(ctx.seed + 7))
     seams(ctx, rng)
     n = ctx.budget(70, 900)
     cases = [c for c in (gen_case(rng, i) for i in range(n)) if c is not None]
